@@ -18,6 +18,7 @@ noncomputable def realOps : Ops ℝ where
   abs := fun x => |x|
   log := Real.log
   sqrt := Real.sqrt
+  sq := fun x => x * x
   ofNat := fun n => (n : ℝ)
   pi := Real.pi
 
